@@ -261,17 +261,36 @@ def run(ctx):
     if rc != 0:
         ctx.broken.append(("correspondence", "driver c16_ray failed", "rc=%s %s" % (rc, err[-800:])))
         return
-    lines = out.split("\n")
-    pos_ = 0
-    outs = []
-    for c in cmds:
-        if c[0] == "SCENE":
-            j = pos_
-            while j < len(lines) and lines[j].strip() != "END":
-                j += 1
-            outs.append(lines[pos_:j]); pos_ = j + 1
+    # one block of lines per command, closed by "#EOC" (a crash inside a command is reported in its own block)
+    blocks, cur = [], []
+    for ln in out.split("\n"):
+        if ln.strip() == "#EOC":
+            blocks.append(cur); cur = []
         else:
-            outs.append(lines[pos_] if pos_ < len(lines) else ""); pos_ += 1
+            cur.append(ln)
+    if len(blocks) != len(cmds):
+        ctx.broken.append(("correspondence", "driver c16_ray output incomplete", "%d blocks for %d commands; %s" % (len(blocks), len(cmds), err[-300:])))
+        return
+    outs = []
+    crashed = []
+    for c, b in zip(cmds, blocks):
+        b = [x for x in b if x.strip()]
+        if any(x.startswith("CRASH") for x in b):
+            crashed.append((c, b))
+            outs.append(None)
+        elif c[0] == "SCENE":
+            outs.append([x for x in b if x.strip() != "END"])
+        else:
+            outs.append(b[0] if b else "")
+    for c, b in crashed[:3]:
+        real_model = c[0] in ("SCENE", "ROW", "CORPUS", "GEOM", "QUAD")
+        ctx.violation("impl_violation" if real_model else "correspondence", {"op": c[0], "args": c[1], "input_line": text(c)},
+                      expected="the call returns", observed=[x for x in b if x.startswith("CRASH")][0],
+                      theorem="C16_select" if real_model else "correspondence c16 driver",
+                      signature={"site": "engine_ray.c", "class": "crash"}, found_input=real_model,
+                      note="" if real_model else "the static function crashed on a hand-built mjModel that only carries the tables the current source reads "
+                                                 "(geom_bodyid, geom_matid, geom_rgba, mat_rgba, body_weldid, body_rootid, body_parentid, geom_group): it "
+                                                 "now reads another table; the scene oracle decides whether the change breaks the property")
     elim_res = []
     quad_cases, geom_cases, row_cases, sel_cases = [], [], [], []
     quad_src, geom_src, row_src, sel_src = [], [], [], []
@@ -279,6 +298,10 @@ def run(ctx):
     samples = []
     for ci, (c, o) in enumerate(zip(cmds, outs)):
         k, p = c
+        if o is None:
+            if k == "ELIM":
+                elim_res.append(-1)
+            continue
         if k == "ELIM":
             bodyid, bex, matid, ga0, ma0, flg, weld, ggi, group = p
             try:
@@ -370,6 +393,7 @@ def run(ctx):
                 ctx.broken.append(("correspondence", "scene did not run", "%s -> %s" % (text(c), " | ".join(o)[:300]))); continue
             bex_eff = int(o[0].split()[4])
             G, X, pnt = [], {}, None
+            Bt = []
             rays = []
             for ln in o[1:]:
                 t = ln.split()
@@ -378,6 +402,8 @@ def run(ctx):
                 if t[0] == "G":
                     G.append(dict(type=int(t[2]), body=int(t[3]), mat=int(t[4]), ga0=int(t[5]), ma0=int(t[6]), weld=int(t[7]), group=int(t[8]),
                                   rbound=float.fromhex(t[9])))
+                elif t[0] == "B":
+                    Bt.append((int(t[2]), int(t[3]), int(t[4])))      # parentid, jntnum, is mocap
                 elif t[0] == "P":
                     pnt = [float.fromhex(x) for x in t[1:4]]
                 elif t[0] == "R":
@@ -387,6 +413,14 @@ def run(ctx):
                                      d0=float.fromhex(t[10]), table=[float.fromhex(x) for x in t[11:11 + ng]], nsame=int(t[11 + ng])))
                 elif t[0] == "X":
                     X[int(t[1])] = (int(t[2]), [float.fromhex(x) for x in t[3:6]], [float.fromhex(x) for x in t[6:15]], [float.fromhex(x) for x in t[15:18]])
+            # weld groups computed independently of body_weldid: a body with a joint or a mocap body starts a group,
+            # a jointless body belongs to the group of its parent (parents precede children)
+            weld = []
+            for b, (par, jn, moc) in enumerate(Bt):
+                weld.append(b if (b == 0 or jn > 0 or moc) else weld[par])
+            for g in G:
+                g["weld_impl"] = g["weld"]
+                g["weld"] = weld[g["body"]]
             elim = [elim_rule(g, bex_eff, flg, gg) for g in G]
             ray_lits = []
             for ri, r in enumerate(rays):
@@ -400,6 +434,15 @@ def run(ctx):
                 rc_case = dict(case, ray=ri, pnt=pnt, vec=r["vec"])
                 if best[1] >= 0:
                     nhits += 1
+                for who, gid in (("mj_ray", r["g1"]), ("mj_multiRay", r["gm"])):
+                    if not (-1 <= gid < len(G)):
+                        ctx.violation("impl_violation", rc_case, expected="geom id in -1..ngeom-1", observed={who: gid}, theorem="C16_select",
+                                      signature={"site": who, "class": "bad_geomid"})
+                    elif gid >= 0 and not flg and G[gid]["weld"] == 0:
+                        ctx.violation("impl_violation", dict(rc_case, geom=gid, geom_body=G[gid]["body"]),
+                                      expected="with flg_static=0 no returned geom belongs to a body welded to the world",
+                                      observed={who: gid, "body": G[gid]["body"], "weld group": 0}, theorem="C16_eliminate",
+                                      signature={"site": "ray_eliminate", "class": "static_geom_returned"})
                 if (r["d1"], r["g1"]) != best:
                     ctx.violation("impl_violation", rc_case, expected={"dist": best[0], "geomid": best[1]}, observed={"dist": r["d1"], "geomid": r["g1"]},
                                   theorem="C16_select", signature={"site": "mj_ray", "class": "not_nearest"})
@@ -425,7 +468,7 @@ def run(ctx):
                                       theorem="C16_multi", signature={"site": "mj_multiRay", "class": "normal_differs"})
                 else:
                     # beyond the cutoff: any answer must still be a genuine hit of a non-eliminated geom, not nearer than the true one
-                    if r["gm"] >= 0 and (elim[r["gm"]] or r["table"][r["gm"]] != r["dm"] or (best[1] >= 0 and r["dm"] < best[0])):
+                    if 0 <= r["gm"] < len(G) and (elim[r["gm"]] or r["table"][r["gm"]] != r["dm"] or (best[1] >= 0 and r["dm"] < best[0])):
                         ctx.violation("impl_violation", rc_case, expected="a reported hit is a real hit", observed=(r["dm"], r["gm"]),
                                       theorem="C16_multi", signature={"site": "mj_multiRay", "class": "bogus_hit"})
                 ray_lits.append("(%s, %s, %s)" % (F.zlist([dkey(x) for x in r["table"]]), zc(dkey(r["d1"])), zc(r["g1"])))
